@@ -347,7 +347,7 @@ Definition axis_props (x0 x1 rs : Q) (off : option Q) (tol tx : Q) (n : Z) : Pro
   tx == (if Qltb 0 rs then lo else hi) /\
   match off with
   | Some o => forall i : Z, exists k : Z, tx + inject_Z i * rs == (inject_Z k + o) * a
-  | None => tx = (if Qltb 0 rs then x0 else x1)
+  | None => tx == (if Qltb 0 rs then x0 else x1)
   end.
 
 Lemma snap_grid_props x0 x1 rs off tol tx n :
@@ -413,4 +413,106 @@ Proof.
   - destruct Ho as [Ho1 Ho2].
     destruct (snap_grid_some_spec x0 x1 rs o tol Hr Hx Ht Ho1 Ho2) as (k & n & tx & R & _). eauto.
   - destruct (snap_grid_none_spec x0 x1 rs tol Hr Hx Ht) as (n & R & _). eauto.
+Qed.
+
+(** * from_bbox *)
+
+Definition valid_box (B : bbox) : Prop := bl B < br B /\ bb B < bt B.
+
+(** the grid assembled from two snapped axes *)
+Definition build (B : bbox) (crs : Z) (snap : option (Q * Q)) (rx ry tol : Q) : res gbox :=
+  '(offx, nx) <- snap_grid (bl B) (br B) rx (option_map fst snap) tol ;;
+  '(offy, ny) <- snap_grid (bb B) (bt B) ry (option_map snd snap) tol ;;
+  Ok (mkG ny nx (aff_mul (aff_translation offx offy) (aff_scale rx ry)) crs).
+
+Lemma from_bbox_resolution B crs tight rx ry anc tol :
+  from_bbox B crs tight None (Some (rx, ry)) anc tol =
+  (a <- norm_anchor anc ;; build B crs (snap_of tight a) rx ry tol).
+Proof. unfold from_bbox, build. destruct (norm_anchor anc); reflexivity. Qed.
+
+Definition longest_res (B : bbox) (n : Z) : Q :=
+  if Qltb 1 (span_x B / span_y B) then span_x B / inject_Z n else span_y B / inject_Z n.
+
+Lemma from_bbox_shapeN B crs tight n r anc tol :
+  from_bbox B crs tight (Some (ShapeN n)) r anc tol =
+  (a <- norm_anchor anc ;;
+   _ <- guard (negb (Qeq_bool (span_y B) 0)) EOther ;;
+   _ <- guard (negb (Z.eqb n 0)) EOther ;;
+   build B crs (snap_of tight a) (longest_res B n) (- longest_res B n) tol).
+Proof.
+  unfold from_bbox, build, longest_res. destruct (norm_anchor anc); [|reflexivity]. cbn [bind].
+  destruct (negb (Qeq_bool (span_y B) 0)); [|reflexivity]. cbn [guard bind].
+  destruct (negb (Z.eqb n 0)); reflexivity.
+Qed.
+
+Lemma build_inv B crs snap rx ry tol g :
+  build B crs snap rx ry tol = Ok g ->
+  exists offx nx offy ny,
+    snap_grid (bl B) (br B) rx (option_map fst snap) tol = Ok (offx, nx) /\
+    snap_grid (bb B) (bt B) ry (option_map snd snap) tol = Ok (offy, ny) /\
+    g = mkG ny nx (aff_mul (aff_translation offx offy) (aff_scale rx ry)) crs.
+Proof.
+  unfold build. intros H.
+  apply bind_ok in H. destruct H as ([offx nx] & H1 & H).
+  apply bind_ok in H. destruct H as ([offy ny] & H2 & H).
+  injection H as <-. exists offx, nx, offy, ny. auto.
+Qed.
+
+Lemma aff_mul_ts offx offy rx ry :
+  let m := aff_mul (aff_translation offx offy) (aff_scale rx ry) in
+  aa m == rx /\ ab m == 0 /\ ac m == offx /\ ad m == 0 /\ ae m == ry /\ af m == offy.
+Proof.
+  unfold aff_mul, aff_translation, aff_scale. cbn [aa ab ac ad ae af].
+  repeat split; ring.
+Qed.
+
+(** what a grid built from box [B] with snap offsets [snap], pixel size
+    [(rx, ry)] and tolerance [tol] satisfies *)
+Definition grid_props (B : bbox) (snap : option (Q * Q)) (rx ry tol : Q) (g : gbox) : Prop :=
+  aa (g_aff g) == rx /\ ae (g_aff g) == ry /\ ab (g_aff g) == 0 /\ ad (g_aff g) == 0 /\
+  axis_props (bl B) (br B) rx (option_map fst snap) tol (g_x0 g) (g_nx g) /\
+  axis_props (bb B) (bt B) ry (option_map snd snap) tol (g_y0 g) (g_ny g).
+
+Lemma axis_props_ext x0 x1 rs off tol tx tx' n :
+  tx' == tx -> axis_props x0 x1 rs off tol tx n ->
+  axis_props x0 x1 rs off tol tx' n.
+Proof.
+  intros E H. unfold axis_props in *. cbv zeta in *.
+  assert (L : axis_lo tx' n rs == axis_lo tx n rs).
+  { unfold axis_lo, qmin.
+    destruct (Qle_bool tx' (tx' + inject_Z n * rs)) eqn:E1; destruct (Qle_bool tx (tx + inject_Z n * rs)) eqn:E2;
+      try (apply Qle_bool_true in E1); try (apply Qle_bool_true in E2);
+      try (apply Qle_bool_false in E1); try (apply Qle_bool_false in E2); lra. }
+  assert (Hh : axis_hi tx' n rs == axis_hi tx n rs).
+  { unfold axis_hi, qmax.
+    destruct (Qle_bool tx' (tx' + inject_Z n * rs)) eqn:E1; destruct (Qle_bool tx (tx + inject_Z n * rs)) eqn:E2;
+      try (apply Qle_bool_true in E1); try (apply Qle_bool_true in E2);
+      try (apply Qle_bool_false in E1); try (apply Qle_bool_false in E2); lra. }
+  set (lo' := axis_lo tx' n rs) in *. set (hi' := axis_hi tx' n rs) in *.
+  set (lo := axis_lo tx n rs) in *. set (hi := axis_hi tx n rs) in *.
+  destruct H as (H0 & H1 & H2 & H3 & H4 & H5 & H6 & H7 & H8 & H9 & H10).
+  split; [exact H0|]. split; [exact H1|].
+  split; [lra|]. split; [lra|]. split; [lra|]. split; [lra|]. split; [lra|].
+  split. { destruct H7 as [H7|H7]; [left; lra|right; exact H7]. }
+  split; [lra|].
+  split. { destruct (Qltb 0 rs); lra. }
+  destruct off as [o|].
+  - intros i. destruct (H10 i) as (k & Hk). exists k. lra.
+  - rewrite E. exact H10.
+Qed.
+
+Lemma build_props B crs snap rx ry tol g :
+  build B crs snap rx ry tol = Ok g -> valid_box B -> 0 <= tol ->
+  g_crs g = crs /\ grid_props B snap rx ry tol g.
+Proof.
+  intros H [Vx Vy] Ht. apply build_inv in H. destruct H as (offx & nx & offy & ny & H1 & H2 & ->).
+  split; [reflexivity|].
+  pose proof (snap_grid_props _ _ _ _ _ _ _ H1 Vx Ht) as P1.
+  pose proof (snap_grid_props _ _ _ _ _ _ _ H2 Vy Ht) as P2.
+  destruct (aff_mul_ts offx offy rx ry) as (A1 & A2 & A3 & A4 & A5 & A6).
+  unfold grid_props, g_x0, g_y0. cbn [g_aff g_nx g_ny].
+  split; [exact A1|]. split; [exact A5|]. split; [exact A2|]. split; [exact A4|].
+  split.
+  - apply (axis_props_ext _ _ _ _ _ offx); [exact A3|exact P1].
+  - apply (axis_props_ext _ _ _ _ _ offy); [exact A6|exact P2].
 Qed.
